@@ -22,11 +22,90 @@ fn main() {
     let driver = std::env::args().nth(1).expect("usage: drive <driver> ...");
     match driver.as_str() {
         "graph-random" => graph_random(),
+        "names-random" => names_random(),
         other => {
             eprintln!("unknown driver {other}");
             std::process::exit(2);
         }
     }
+}
+
+/// C15 beyond the exhaustive universes: random abstract names rendered to strings, the real
+/// verdicts logged for validation against the TLA+ contract (spec/TraceNames.tla).
+fn names_random() {
+    use wac_types::{are_semver_compatible, NameMap, NameMapNoIntern};
+    let seed: u64 = arg("--seed", "1").parse().unwrap();
+    let n: usize = arg("--events", "2000").parse().unwrap();
+    let out_path = arg("--out", "names.ndjson");
+    let mut rng = StdRng::seed_from_u64(seed);
+    let bases = [
+        "a", "ns:pkg/iface", "ns:pkg/iface-two", "ns:pkg/ifac", "wasi:http/incoming-handler",
+        "my-org:very-long-package-name/some-interface-name", "x:y/z",
+    ];
+    let pres = ["-rc.1", "-alpha", "-0.3.7", "-x-y.z", "-rc.1.2.3"];
+    let builds = ["+b.7-x", "+001", "+exp.sha.5114f85", "+a-b"];
+    let malformed = ["1", "1.2", "1.2.3.4", "v1.0.0", "01.2.3", "", "1.0.0-", "1.x.0", "1.0.0+", "1.0.0-01"];
+    let nums: [u64; 12] = [0, 0, 0, 1, 1, 2, 3, 9, 10, 11, 100, 999_999];
+    // an abstract name and its rendering
+    let gen = |rng: &mut StdRng| -> (Value, String) {
+        let base = *bases.choose(rng).unwrap();
+        match rng.gen_range(0..10) {
+            0 => (json!({"base": base, "ver": [], "pre": false, "build": false, "text": ""}), base.to_string()),
+            1 => {
+                let m = *malformed.choose(rng).unwrap();
+                (
+                    json!({"base": format!("{base}@{m}"), "ver": [], "pre": false, "build": false, "text": m}),
+                    format!("{base}@{m}"),
+                )
+            }
+            _ => {
+                let v: Vec<u64> = (0..3).map(|_| *nums.choose(rng).unwrap()).collect();
+                let pre = if rng.gen_ratio(1, 5) { *pres.choose(rng).unwrap() } else { "" };
+                let build = if rng.gen_ratio(1, 4) { *builds.choose(rng).unwrap() } else { "" };
+                let text = format!("{pre}{build}");
+                (
+                    json!({"base": base, "ver": v, "pre": !pre.is_empty(), "build": !build.is_empty(), "text": text}),
+                    format!("{base}@{}.{}.{}{text}", v[0], v[1], v[2]),
+                )
+            }
+        }
+    };
+    let mut out = std::io::BufWriter::new(std::fs::File::create(&out_path).unwrap());
+    let mut pool: Vec<(Value, String)> = (0..40).map(|_| gen(&mut rng)).collect();
+    for i in 0..n {
+        if i % 50 == 0 {
+            // refresh part of the pool so that related names (same base/track) keep meeting
+            for _ in 0..10 {
+                let k = rng.gen_range(0..pool.len());
+                pool[k] = gen(&mut rng);
+            }
+        }
+        if rng.gen_bool(0.5) {
+            let (x, xs) = pool.choose(&mut rng).unwrap().clone();
+            let (y, ys) = pool.choose(&mut rng).unwrap().clone();
+            let res = are_semver_compatible(&xs, &ys);
+            writeln!(out, "{}", json!({"a": "compat", "x": x, "y": y, "res": res, "xs": xs, "ys": ys})).unwrap();
+        } else {
+            let k = rng.gen_range(1..=5);
+            let ins: Vec<(Value, String)> = (0..k).map(|_| pool.choose(&mut rng).unwrap().clone()).collect();
+            let (q, qs) = pool.choose(&mut rng).unwrap().clone();
+            let mut map: NameMap<String, u64> = NameMap::default();
+            let mut cx = NameMapNoIntern;
+            for (p, (_, s)) in ins.iter().enumerate() {
+                map.insert(s, &mut cx, true, p as u64 + 1).unwrap();
+            }
+            let got = map.get(&qs, &cx).copied().unwrap_or(0);
+            writeln!(
+                out,
+                "{}",
+                json!({"a": "map", "ins": ins.iter().map(|x| x.0.clone()).collect::<Vec<_>>(), "q": q, "got": got,
+                       "strings": ins.iter().map(|x| x.1.clone()).collect::<Vec<_>>(), "qs": qs})
+            )
+            .unwrap();
+        }
+    }
+    out.flush().unwrap();
+    println!("{}", json!({"summary": true, "events": n, "seed": seed}));
 }
 
 /// known-finding shapes the driver can recognise from its own bookkeeping (same predicates as
